@@ -47,14 +47,14 @@ func c10Stop(d *vCtx) error {
 	thorough := d.pBool("thorough", false)
 	shards := d.pInt("shards", 96)
 	bases := c10Bases(d.seed, thorough)
+	layouts, err := e2eLayouts(d, bases)
+	if err != nil {
+		return err
+	}
 	return vShards(d, shards, func(si, n int) error {
 		base := e2eShmBase()
 		defer os.RemoveAll(base)
 		if err := e2eCaptureStdout(d.out); err != nil {
-			return err
-		}
-		ptr, err := vNewTrace(d.path("probe.ndjson"))
-		if err != nil {
 			return err
 		}
 		type job struct {
@@ -63,18 +63,8 @@ func c10Stop(d *vCtx) error {
 		}
 		var jobs []job
 		for bi, c := range bases {
-			cc := *c
-			cc.ID = 800000 + bi
-			var w []*e2eMsg
-			var err error
-			for try := 0; try < 4; try++ {
-				if w, err = e2eProbe(&cc, e2eWorkDir(base, cc.ID), ptr); err == nil {
-					break
-				}
-			}
-			if err != nil {
-				return err
-			}
+			_ = c
+			w := layouts[bi]
 			for g := range w {
 				for _, ph := range []string{"before", "after"} {
 					jobs = append(jobs, job{bi, e2eStop{G: g, Phase: ph, Role: "C", Delete: false}})
@@ -83,7 +73,6 @@ func c10Stop(d *vCtx) error {
 				}
 			}
 		}
-		_ = ptr.Close()
 		tr, err := vNewTrace(d.path("obs.ndjson"))
 		if err != nil {
 			return err
